@@ -7,6 +7,7 @@ Handlers live in a registry `EXT[name]`; methods in `METHODS[(kind, name)]`.
 import ast, z3
 from .core import (I, R, B, Dyn, Ref, Ext, BoundMethod, Unknown, HObj,
                    Outcome, PyRaise, NeedFork, Unsupported, NOTFOUND, UNBOUND,
+                   MaybeBound,
                    const_of, assigned_names, TAG_NONE, TAG_BOOL, TAG_INT,
                    TAG_FLOAT, TAG_STR, TAG_OBJ, strid, MultiOutcome)
 
@@ -662,8 +663,25 @@ class Lib:
         body (in this frame), ghost facts of solver-owned matrices, contents
         of lists/dicts that are mutated in the body"""
         names = list(assigned_names(body)) + list(extra_names)
+        deleted = set()
+        for x in ast.walk(ast.Module(body=list(body), type_ignores=[])):
+            if isinstance(x, ast.Delete):
+                for t in x.targets:
+                    if isinstance(t, ast.Name):
+                        deleted.add(t.id)
         for nm in names:
             cur = st.frames[fid].get(nm, UNBOUND)
+            if cur is UNBOUND or isinstance(cur, MaybeBound):
+                # definite assignment: bound at the head of an arbitrary
+                # iteration iff the (fresh) flag holds; a variable that was
+                # bound stays bound unless the body deletes it
+                fl = z3.Bool(ex.fresh('bound(%s)' % nm))
+                old = cur.val if isinstance(cur, MaybeBound) else UNBOUND
+                st.frames[fid][nm] = MaybeBound(fl, self.havoc_value(
+                    ex, st, nm, old))
+                if isinstance(cur, MaybeBound) and nm not in deleted:
+                    st.pc.append(z3.Implies(cur.flag, fl))
+                continue
             st.frames[fid][nm] = self.havoc_value(ex, st, nm, cur)
         for oid, o in st.heap.items():
             if o.kind == 'matrix' and o.meta.get('owner', 'FRESH') == 'FRESH':
@@ -711,10 +729,151 @@ class Lib:
             else ex.fresh_int('ndictkeys')
         return self.generic_loop(ex, st, s, fid, it, ln, None)
 
-    def generic_loop(self, ex, st, s, fid, it, ln, cond):
+    def bound_candidates(self, ex, pre, fid, body, loop=None):
+        """candidate invariants `C >= k  ==>  U is bound` for the variables U
+        that are unbound when the loop is entered and assigned in its body:
+        one candidate for every `C = k` (k a positive literal) that follows an
+        assignment of U in the same block.  Guessed here, kept only if
+        inductive (Houdini in generic_loop)."""
+        fr = pre.frames[fid]
+        U = set(nm for nm in assigned_names(body) if fr.get(
+            nm, UNBOUND) is UNBOUND or isinstance(fr.get(nm), MaybeBound))
+        cands = []
+        if not U:
+            return cands
+
+        def tnames(t, out):
+            if isinstance(t, ast.Name):
+                out.add(t.id)
+            elif isinstance(t, (ast.Tuple, ast.List)):
+                for e in t.elts:
+                    tnames(e, out)
+
+        def scan(stmts):
+            for i, s_ in enumerate(stmts):
+                if isinstance(s_, ast.Assign):
+                    tg = set()
+                    for t in s_.targets:
+                        tnames(t, tg)
+                    for u in tg & U:
+                        for s2 in stmts[i + 1:]:
+                            if isinstance(s2, ast.Assign) and len(
+                                    s2.targets) == 1 and isinstance(
+                                        s2.targets[0], ast.Name) and \
+                                    isinstance(s2.value, ast.Constant) and \
+                                    type(s2.value.value) is int and \
+                                    s2.value.value > 0:
+                                c = (u, s2.targets[0].id, s2.value.value)
+                                if c not in cands:
+                                    cands.append(c)
+                for f_ in ('body', 'orelse', 'finalbody'):
+                    b_ = getattr(s_, f_, None)
+                    if isinstance(b_, list) and b_ and isinstance(
+                            b_[0], ast.stmt):
+                        scan(b_)
+                for h_ in getattr(s_, 'handlers', []) or []:
+                    scan(h_.body)
+        scan(list(body))
+        # second family: U assigned under `if <loop variable> == 0:` (and
+        # possibly further loop-invariant conditions G): candidate
+        # "not the first iteration and G  ==>  U is bound"
+        first = []
+        if isinstance(loop, ast.For) and isinstance(loop.target, ast.Name):
+            lv = loop.target.id
+            assigned = set(assigned_names(body)) | {lv}
+
+            def is_first(t):
+                return (isinstance(t, ast.Compare) and len(t.ops) == 1 and
+                        isinstance(t.ops[0], ast.Eq) and isinstance(
+                            t.left, ast.Name) and t.left.id == lv and
+                        isinstance(t.comparators[0], ast.Constant) and
+                        t.comparators[0].value == 0)
+
+            def scan2(stmts, guards):
+                for s_ in stmts:
+                    if isinstance(s_, ast.Assign) and any(
+                            is_first(g) for g in guards):
+                        tg = set()
+                        for t in s_.targets:
+                            tnames(t, tg)
+                        others = [g for g in guards if not is_first(g)]
+                        free = set()
+                        for g in others:
+                            for x in ast.walk(g):
+                                if isinstance(x, ast.Name):
+                                    free.add(x.id)
+                        if free & assigned:
+                            continue
+                        for u in tg & U:
+                            cd = ('first', u, tuple(others))
+                            if not any(c_[0] == 'first' and c_[1] == u and
+                                       [ast.dump(g) for g in c_[2]] ==
+                                       [ast.dump(g) for g in others]
+                                       for c_ in first):
+                                first.append(cd)
+                    if isinstance(s_, ast.If):
+                        scan2(s_.body, guards + [s_.test])
+                    elif isinstance(s_, (ast.For, ast.While, ast.With)):
+                        scan2(s_.body, guards)
+                    elif isinstance(s_, ast.Try):
+                        scan2(s_.body, guards)
+            scan2(list(body), [])
+        # initiation: C >= k is impossible on entry (U is unbound there)
+        keep = list(first)
+        for (u, c, k) in cands:
+            vc = fr.get(c)
+            t = vc.t if isinstance(vc, I) else (
+                z3.IntVal(vc) if type(vc) is int else None)
+            if t is not None and isinstance(fr.get(u, UNBOUND),
+                                            MaybeBound) is False and \
+                    ex.check(pre.pc, [t >= k]) == z3.unsat:
+                keep.append((u, c, k))
+            elif t is not None and isinstance(fr.get(u), MaybeBound) and \
+                    ex.check(pre.pc, [t >= k, z3.Not(fr[u].flag)]) == \
+                    z3.unsat:
+                keep.append((u, c, k))
+        return keep
+
+    def guards_formula(self, ex, st, fid, guards):
+        """conjunction of the truth values of loop-invariant guard
+        expressions in this state; None if they cannot be evaluated without
+        side conditions"""
+        out = []
+        for g in guards:
+            try:
+                n0 = len(st.pc)
+                t = ex.truth(st, ex.ev(g, st, fid), g)
+                del st.pc[n0:]
+            except Exception:
+                return None
+            out.append(z3.BoolVal(t) if isinstance(t, bool) else t)
+        return z3.And(out) if out else z3.BoolVal(True)
+
+    def assume_bound_cands(self, st, fid, cands, ex=None, k=None):
+        fr = st.frames[fid]
+        for cd in cands:
+            if cd[0] == 'first':
+                _, u, guards = cd
+                vu = fr.get(u)
+                if isinstance(vu, MaybeBound) and ex is not None and \
+                        k is not None:
+                    g = self.guards_formula(ex, st, fid, guards)
+                    if g is not None:
+                        st.pc.append(z3.Implies(z3.And(k >= 1, g), vu.flag))
+                continue
+            (u, c, kk) = cd
+            vu, vc = fr.get(u), fr.get(c)
+            if isinstance(vu, MaybeBound) and isinstance(vc, I):
+                st.pc.append(z3.Implies(vc.t >= kk, vu.flag))
+
+    def generic_loop(self, ex, st, s, fid, it, ln, cond, _cands=None,
+                     _st0=None):
         """invariant rule for `for` (it, ln given) and `while` (cond given)"""
         inv = self.find_invariant(ex, s)
         body = s.body
+        if _cands is None:
+            _cands = self.bound_candidates(ex, st, fid, body, s)
+            _st0 = st.copy() if _cands else None
         pre = st
         if inv is not None and hasattr(inv, 'begin'):
             inv.begin(ex, pre, fid, it)
@@ -732,6 +891,7 @@ class Lib:
         tnames = assigned_names([ast.Assign(targets=[s.target], value=None)]
                                 ) if isinstance(s, ast.For) else []
         self.havoc_for_loop(ex, body_st, fid, body, tnames)
+        self.assume_bound_cands(body_st, fid, _cands, ex, k)
         feasible = True
         if lnt is not None:
             rng = z3.And(k >= 0, k < lnt)
@@ -760,6 +920,41 @@ class Lib:
             outs = ex.exec_block(body, body_st, fid)
         res = []
         falls = []
+        if _cands:
+            # Houdini: a guessed `C >= k ==> U bound` that the body does not
+            # preserve is dropped and the loop is examined again without it
+            bad = []
+            for o in outs:
+                if o.kind not in ('fall', 'continue'):
+                    continue
+                fr_ = o.st.frames[fid]
+                for cd in _cands:
+                    if cd in bad:
+                        continue
+                    if cd[0] == 'first':
+                        vu = fr_.get(cd[1], UNBOUND)
+                        bnd = z3.BoolVal(False) if vu is UNBOUND else (
+                            vu.flag if isinstance(vu, MaybeBound) else
+                            z3.BoolVal(True))
+                        g_ = self.guards_formula(ex, o.st, fid, cd[2])
+                        if g_ is None or ex.check(o.st.pc, [
+                                g_, z3.Not(bnd)]) != z3.unsat:
+                            bad.append(cd)
+                        continue
+                    u_, c_, k_ = cd
+                    vu, vc = fr_.get(u_, UNBOUND), fr_.get(c_)
+                    bnd = z3.BoolVal(False) if vu is UNBOUND else (
+                        vu.flag if isinstance(vu, MaybeBound) else
+                        z3.BoolVal(True))
+                    tc = vc.t if isinstance(vc, I) else (
+                        z3.IntVal(vc) if type(vc) is int else None)
+                    if tc is None or ex.check(o.st.pc, [
+                            tc >= k_, z3.Not(bnd)]) != z3.unsat:
+                        bad.append(cd)
+            if bad:
+                return self.generic_loop(
+                    ex, _st0.copy(), s, fid, it, ln, cond,
+                    _cands=[c for c in _cands if c not in bad], _st0=_st0)
         for o in outs:
             if o.kind in ('fall', 'continue'):
                 falls.append(o.st)
@@ -795,6 +990,8 @@ class Lib:
         if exhausted_possible:
             ex_st = pre.copy()
             self.havoc_for_loop(ex, ex_st, fid, body, tnames)
+            self.assume_bound_cands(ex_st, fid, _cands, ex,
+                                    lnt if lnt is not None else k)
             if lnt is not None:
                 kk = lnt
             else:
